@@ -184,6 +184,12 @@ def sig_F53c02(ast_line, real, ev):
     return any(c >= 2 and x in reads for x, c in binders.items())
 
 
+def sig_F76(ast_line, real, ev):
+    """the F53c02 shape where additionally a tuple is built with a spread (`[4] [...]`, `B[...]`):
+    the residue of the F53 family after the F53 repair"""
+    return "(FSpread" in ast_line and sig_F53c02(ast_line, real, ev)
+
+
 def sig_F64c02(ast_line, real, ev):
     """an UNNAMED star pattern, and one side reports an undefined variable"""
     return "(MStar -)" in ast_line and (real == "(err VariableUndefined)" or ev.startswith("(err stuck 1)"))
@@ -270,7 +276,7 @@ def sig_F75(ast_line, real, ev, st=None):
     return bool(hit)
 
 
-SIGNATURES = [("F64c02", sig_F64c02), ("F75", sig_F75), ("F53c02", sig_F53c02), ("F73", sig_F73)]
+SIGNATURES = [("F64c02", sig_F64c02), ("F75", sig_F75), ("F76", sig_F76), ("F53c02", sig_F53c02), ("F73", sig_F73)]
 
 
 def known_finding_of(ast_line, real, ev, st=None):
